@@ -1,7 +1,8 @@
 (* Proofs/ApiJsonSrc.v — the C18 statements instantiated on the tables srcfacts read from the Go sources of
    this run (Src/SrcApiJson.v): side conditions by computation, concrete witnesses of the known findings,
    non-vacuity examples. *)
-From Verif Require Import Base.Bytes Model.ApiJson Src.SrcApiJson Proofs.ApiJsonBase Proofs.ApiJsonProofs.
+From Verif Require Import Base.Bytes Model.ApiJson Src.SrcApiJson Proofs.ApiJsonBase Proofs.ApiJsonProofs
+  Proofs.ApiJsonTidy.
 Open Scope string_scope.
 
 Notation st := src_tables.
@@ -103,25 +104,83 @@ Lemma nonfinite_refuted :
 Proof. vm_compute. repeat split; reflexivity. Qed.
 
 Definition w_expr_number : gval := mk "Expr" [("Range", rng "env"); ("Literal", GIface TNum (GNum "12345678901234567890"))].
-Lemma expr_number_refuted :
-  keeps_numbers st "Expr" = false ->
-  wellformed st 12 top texpr w_expr_number = true /\ kf_any_number st 12 top texpr w_expr_number = true
-  /\ exists j v', marshal st 12 texpr w_expr_number = Ok j /\ unmarshal st 12 top texpr j = Ok v'
+
+(* repaired in the source of this run: Expr has an UnmarshalJSON that calls UseNumber, so the witness of the old
+   finding is clean and round-trips (this stops compiling if the repair is reverted) *)
+Lemma expr_number_repaired :
+  keeps_numbers st "Expr" = true /\ clean st 12 top texpr w_expr_number = true
+  /\ roundtrips st 12 texpr w_expr_number = true.
+Proof. vm_compute. repeat split; reflexivity. Qed.
+
+(* the tables of this run with Expr's custom decoder taken away again: the code before the repair *)
+Definition tables_without_usenumber : tables :=
+  map (fun sd => if String.eqb (sd_name sd) "Expr"
+                 then mkSdef (sd_name sd) (sd_fields sd) (sd_marshal sd) CustNone else sd) st.
+
+Lemma expr_number_refuted_without_usenumber :
+  keeps_numbers tables_without_usenumber "Expr" = false
+  /\ wellformed tables_without_usenumber 12 top texpr w_expr_number = true
+  /\ kf_any_number tables_without_usenumber 12 top texpr w_expr_number = true
+  /\ exists j v', marshal tables_without_usenumber 12 texpr w_expr_number = Ok j
+                  /\ unmarshal tables_without_usenumber 12 top texpr j = Ok v'
                   /\ gval_eqb true w_expr_number v' = false.
 Proof.
-  intro H. vm_compute in H.
-  first [ discriminate H
-        | (split; [vm_compute; reflexivity|]; split; [vm_compute; reflexivity|];
-           eexists; eexists; split; [vm_compute; reflexivity|]; split; [vm_compute; reflexivity|];
-           vm_compute; reflexivity) ].
+  split; [vm_compute; reflexivity|]. split; [vm_compute; reflexivity|]. split; [vm_compute; reflexivity|].
+  eexists. eexists. split; [vm_compute; reflexivity|]. split; [vm_compute; reflexivity|]. vm_compute. reflexivity.
 Qed.
 
 Definition w_empty_list : gval := mk "Expr" [("Range", rng "env"); ("List", GSlice [])].
 Lemma empty_list_refuted :
   wellformed st 12 top texpr w_empty_list = true /\ kf_empty_omitted st 12 top texpr w_empty_list = true
+  /\ kf_empty_lossy st 12 top texpr w_empty_list = true
   /\ exists j, marshal st 12 texpr w_empty_list = Ok j
                /\ unmarshal st 12 top texpr j = Ok (mk "Expr" [("Range", rng "env"); ("List", GNil)]).
-Proof. split; [vm_compute; reflexivity|]. split; [vm_compute; reflexivity|]. eexists. split; [vm_compute; reflexivity | vm_compute; reflexivity]. Qed.
+Proof.
+  split; [vm_compute; reflexivity|]. split; [vm_compute; reflexivity|]. split; [vm_compute; reflexivity|].
+  eexists. split; [vm_compute; reflexivity | vm_compute; reflexivity].
+Qed.
+
+(* ---- the omitempty slice/map fields of the tables: 18, of which 5 lose information when read back as nil ---- *)
+Definition is_collection (t : gty) : bool := match t with TSlice _ | TMap _ => true | _ => false end.
+
+(* (struct, Go field) of every written field that is omitempty and a slice or a map *)
+Definition omitempty_collections (tb : tables) : list (string * string) :=
+  flat_map (fun sd => map (fun f => (sd_name sd, f_go f))
+                          (filter (fun f => f_omit f && negb (f_skip f) && is_collection (f_ty f)) (sd_fields sd))) tb.
+
+Definition pair_eqb (a b : string * string) : bool := String.eqb (fst a) (fst b) && String.eqb (snd a) (snd b).
+
+Lemma empty_fields_count :
+  length (omitempty_collections st) = 18%nat
+  /\ length (filter (fun q => lossy_field (fst q) (snd q)) (omitempty_collections st)) = 5%nat
+  /\ length lossy_fields = 5%nat
+  /\ forallb (fun q => existsb (pair_eqb q) (omitempty_collections st)) lossy_fields = true.
+Proof. vm_compute. repeat split; reflexivity. Qed.
+
+(* ---- harmless empties: non-nil empty collections where nil means the same; they come back as nil ---- *)
+Definition harmless_schema : gval := mk "Schema" [("Type", GStr "object"); ("Required", GSlice []); ("Properties", GMap [])].
+Definition harmless_expr : gval := mk "Expr" [("Range", rng "env"); ("Literal", vstr "x"); ("KeyRanges", GMap [])].
+Definition harmless_env : gval :=
+  mk "Environment" [("Exprs", GMap [("e", harmless_expr)]); ("Properties", GMap []); ("Schema", GPtr harmless_schema)].
+(* the same with every one of those four fields left nil *)
+Definition harmless_env_nil : gval :=
+  mk "Environment" [("Exprs", GMap [("e", mk "Expr" [("Range", rng "env"); ("Literal", vstr "x")])]);
+                    ("Schema", GPtr (mk "Schema" [("Type", GStr "object")]))].
+
+Lemma harmless_empties :
+  tidy st 12 top tenv harmless_env = true /\ clean st 12 top tenv harmless_env = false
+  /\ kf_empty_omitted st 12 top tenv harmless_env = true /\ kf_empty_lossy st 12 top tenv harmless_env = false
+  /\ in_lossy_class st 12 top tenv harmless_env = false
+  /\ (exists j, marshal st 12 tenv harmless_env = Ok j
+                /\ unmarshal st 12 top tenv j = Ok (nilify st 12 tenv harmless_env))
+  /\ nilify st 12 tenv harmless_env = harmless_env_nil
+  /\ gval_eqb false harmless_env (nilify st 12 tenv harmless_env) = false.
+Proof.
+  split; [vm_compute; reflexivity|]. split; [vm_compute; reflexivity|]. split; [vm_compute; reflexivity|].
+  split; [vm_compute; reflexivity|]. split; [vm_compute; reflexivity|].
+  split; [eexists; split; [vm_compute; reflexivity | vm_compute; reflexivity]|].
+  split; [vm_compute; reflexivity | vm_compute; reflexivity].
+Qed.
 
 Definition w_non_utf8 : gval := value (vstr (hx "ff")) false false trace0.
 Lemma non_utf8_refuted :
